@@ -2002,7 +2002,9 @@ def serialized_on_wire(message: Message) -> bool:
     :class:`bool`
         Whether this message was or should be serialized on the wire.
     """
-    return message._serialized_on_wire
+    # Content set through nested attribute access (``m.a.b.x = 1``) or by mutating a
+    # container in place does not mark the messages on the way, but it is serialized.
+    return message._serialized_on_wire or bool(message)
 
 
 def which_one_of(message: Message, group_name: str) -> Tuple[str, Optional[Any]]:
